@@ -186,10 +186,31 @@ def builder_spec(draw, kinds=("probe", "probe", "planewave")):
     return b
 
 
+def sound_gpts(g, pot):
+    """A grid on which something can be detected: the antialias cutoff (2/3 of the smaller
+    Nyquist frequency) must span at least two reciprocal-space pixels along either axis,
+    otherwise `cutoff_angles` is 0 along the finer-sampled axis and every detector range is
+    empty (abTEM then refuses: "number of bins must be greater than zero")."""
+    cell = list(pot["atoms"]["cell"][:2])
+    if pot["kind"] == "crystal":
+        cell = [cell[0] * pot["repetitions"][0], cell[1] * pot["repetitions"][1]]
+    g = list(g)
+    for _ in range(4):
+        k = min(g[0] / cell[0], g[1] / cell[1]) / 3.0  # cutoff in 1/A
+        for i in range(2):
+            if k * cell[i] < 2.05:
+                j = 1 - i
+                # raise the coarser axis' gpts (it limits k)
+                lim = 0 if g[0] / cell[0] < g[1] / cell[1] else 1
+                g[lim] = int(np.ceil(3.0 * 2.05 / cell[i] * cell[lim])) + 1
+    return g
+
+
 @st.composite
 def pipeline_spec(draw, potential_kinds=("atoms", "fp", "fp_mean", "atoms_ensemble", "crystal", "array"), builders=("probe", "probe", "planewave"), max_detectors=3, gpts=(8, 24), **potkw):
     pot = draw(potential_spec(kinds=potential_kinds, **potkw))
     g = [draw(st.integers(*gpts)), draw(st.integers(*gpts))]
+    g = sound_gpts(g, pot)
     b = draw(builder_spec(kinds=builders))
     spec = {"potential": pot, "gpts": g, "builder": b}
     if b["kind"] == "probe":
